@@ -33,6 +33,9 @@ type H interface {
 	End(id int, ctx context.Context) error
 	// Probe records the evaluation of directive argument k.
 	Probe(k int)
+	// ProbeNext records the evaluation of the next directive argument that is
+	// written without its number (rt.ArgNext).
+	ProbeNext()
 	// Ident reports whether user identifier k still denoted the user's
 	// variable when a directive argument mentioning it was evaluated.
 	Ident(k int, ok bool)
@@ -56,6 +59,12 @@ type H interface {
 // the harness and yields the value unchanged.
 func Arg[T any](h H, k int, v T) T {
 	h.Probe(k)
+	return v
+}
+
+// ArgNext is Arg for arguments that must be textually identical to one another.
+func ArgNext[T any](h H, v T) T {
+	h.ProbeNext()
 	return v
 }
 
